@@ -552,6 +552,12 @@ class Analysis:
         return None
 
     # -- forgetting ----------------------------------------------------------------------
+    def bump(self, cs, v, k):
+        """Constraint list after the ghost variable v has been increased by the constant k (v' = v + k, substituted everywhere)."""
+        by = Lin.var(v) - Lin.const(k)
+        out = _simplify([le0(_lin_of_con(c).subst(v, by)) for c in cs])
+        return [] if out is False else list(out)
+
     def _kill(self, cs, pred):
         vs = [v for v in self._vars(cs) if pred(v)]
         for v in vs:
